@@ -349,19 +349,19 @@ def _plans(tier, rng):
     out = []
     if tier == "quick":
         out.append(("Net(2,3,2) x tree x ALL ordered subsets(<=3) x slice/project", ge1(scope.networks(2, 3, 2)), True,
-                    {"trees": "all", "ops": "all", "nsizes": 1}, "all 225 networks; one seeded size assignment from {1,2,3} each"))
+                    {"trees": "all", "ops": "all", "nsizes": 1}, "all 225 networks (the one without any index is skipped); one seeded size assignment from {1,2,3} each"))
         out.append(("Net(2,2,3) x tree x ALL ordered subsets x slice/project", ge1(scope.networks(2, 2, 3)), True,
                     {"trees": "all", "ops": "all", "nsizes": 2}, "all 516 networks; two seeded size assignments from {1,2,3} each"))
         out.append(("Net(3,2,2) x all trees x ALL ordered subsets x slice/project", ge1(scope.networks(3, 2, 2)), True,
                     {"trees": "all", "ops": "all", "nsizes": 1}, "all 778 networks; all 3 trees"))
         out.append(("Net(2,3,3) x tree x sampled ordered subsets", ge1(scope.networks(2, 3, 3)), False,
-                    {"trees": "all", "ops": 4, "nsizes": 1}, "all 3108 networks; 4 seeded (ordered subset, slice/project) choices each"))
+                    {"trees": "all", "ops": 8, "nsizes": 1}, "all 3108 networks; 8 seeded (ordered subset, slice/project) choices each"))
         out.append(("Net(3,3,2) x all trees x sampled ordered subsets", ge1(scope.networks(3, 3, 2)), False,
-                    {"trees": "all", "ops": 2, "nsizes": 1}, "all 4106 networks; all 3 trees; 2 seeded choices per tree"))
-        out.append(("Net(3,4,3) sample x all trees x sampled subsets", scope.sample_networks(3, 4, 3, 500, rng), False,
-                    {"trees": "all", "ops": 3, "nsizes": 1}, "seeded sample of 500 networks"))
-        out.append(("Net(4,4,3) sample x all trees x sampled subsets", scope.sample_networks(4, 4, 3, 120, rng), False,
-                    {"trees": "all", "ops": 2, "nsizes": 1}, "seeded sample of 120 networks; all 15 trees"))
+                    {"trees": "all", "ops": 3, "nsizes": 1}, "all 4106 networks; all 3 trees; 3 seeded choices per tree"))
+        out.append(("Net(3,4,3) sample x all trees x sampled subsets", scope.sample_networks(3, 4, 3, 800, rng), False,
+                    {"trees": "all", "ops": 3, "nsizes": 1}, "seeded sample of 800 networks"))
+        out.append(("Net(4,4,3) sample x all trees x sampled subsets", scope.sample_networks(4, 4, 3, 200, rng), False,
+                    {"trees": "all", "ops": 2, "nsizes": 1}, "seeded sample of 200 networks; all 15 trees"))
         out.append(("Net(5,5,3) sample x sampled trees x sampled subsets", scope.sample_networks(5, 5, 3, 60, rng), False,
                     {"trees": 8, "ops": 2, "nsizes": 1}, "seeded sample of 60 networks; 8 random trees each"))
     else:
@@ -387,7 +387,7 @@ def _plans(tier, rng):
 def run_bounded(rep: Report, tier: str) -> None:
     global _DEADLINE
     rng = random.Random(f"{seed()}|C06|plans")
-    _DEADLINE = deadline(tier, 70, 25 * 60)
+    _DEADLINE = deadline(tier, 150, 25 * 60)  # safety net only: the quick workload is sized for ~15 s on 16 idle cores
     rep.rule = (
         "case = (network, size assignment from {1,2,3}, binary tree, ordered list of <= 3 distinct indices each either "
         "sliced or projected to a value, (prefer_einsum, implementation) rotated); one evaluation = one such case with all "
@@ -402,10 +402,13 @@ def run_bounded(rep: Report, tier: str) -> None:
         meta[name] = {"nets": len(nets), "exh": exh, "bound": bound, "done": 0, "cases": 0, "skipped": 0}
         for idx, (i, o) in enumerate(nets):
             items.append((name, idx, i, o, plan))
+    if tier == "quick":
+        items.reverse()  # large-network scopes first, the many cheap ones fill the tail (load balance);
+        # in thorough the complete small scopes stay first so that a time limit can only cut the big ones
     viols = []
     kinds = {}
     nsamples = 0
-    for status, r in pmap(_work, items, chunk=8):
+    for status, r in pmap(_work, items, chunk=4):
         if status == "crash":
             rep.crash("C06 worker: " + r[:1500])
             continue
